@@ -8,6 +8,7 @@ SPEC = os.path.join(core.VERIF, "specs", "WorkManager")
 DRIVER = os.path.join(core.VERIF, "harness", "overlay", "query", "zz_verif_workmanager_test.go")
 DRIVER_W = os.path.join(core.VERIF, "harness", "overlay", "query", "zz_verif_workmanager_worker_test.go")
 DRIVER_F = os.path.join(core.VERIF, "harness", "overlay", "query", "zz_verif_workmanager_free_test.go")
+DRIVER_M = os.path.join(core.VERIF, "harness", "overlay", "query", "zz_verif_workmanager_many_test.go")
 PKG = os.path.join(core.REPO, "query")
 
 READY = True
@@ -30,7 +31,15 @@ MANIFEST = {
              "evaluated by TLC on the observed traces. The real worker.Run is replayed against Worker.tla (mock Peer, "
              "virtual time in a testing/synctest bubble: half-timeout ticks with unrelated / progressing messages in "
              "between, unbuffered results channel, quit closed while a result is being handed back to nobody). The repository's own work-manager tests are re-run with the hooks recording; "
-             "their executions are judged by the same operators and validated against TraceWorkManager.tla.",
+             "their executions are judged by the same operators and validated against TraceWorkManager.tla. "
+             "Many-batch executions: the real dispatcher with 1..40 batches in flight, real idle (AfterFunc) and hard "
+             "timers inside a testing/synctest bubble (virtual time): up to 40 idle windows running out in the same "
+             "instant / staggered, while the dispatcher is in its main select, in the hand-off select (worker slow to "
+             "take the job) or inside OnMaxTries, mass cancellation, connects / disconnects meanwhile, a later batch, "
+             "Stop with many batches pending; 'idle window g of batch b has elapsed' is logged at quiescence as the "
+             "environment step IdleElapsed, the execution is judged by the same operators (IdleTimeoutEndsBatch: a "
+             "batch whose current idle window has elapsed has its result once everything is at rest) and validated "
+             "against TraceWorkManager.tla.",
         note="Bounded: <=2 addresses, <=3 peer objects, <=2 batches x <=2 requests, NumRetries {0,1,2} x NoRetryMax {no,yes}, "
              "<=2-3 failures per history. Trusts TLC, the scripted worker's adherence to the Worker contract (checked "
              "on worker.Run separately, not in composition), and that environment events arrive while the dispatcher "
@@ -46,7 +55,8 @@ MANIFEST = {
 PROPS = {
     "C12": ["AtMostOneVerdict", "SuccessMeansAllAnswered", "ErrorHasCause", "AllAnsweredGetsVerdict",
             "QueryReturns", "ResultAccepted", "StopReturns", "NoPanic", "OneVerdictAfterStop",
-            "PrefersBetterRanked", "PrefersBetterRecord", "ReissueWhenAvailable", "HardDeadlineEndsBatch"],
+            "PrefersBetterRanked", "PrefersBetterRecord", "ReissueWhenAvailable", "HardDeadlineEndsBatch",
+            "IdleTimeoutEndsBatch"],
 }
 # the worker's part of C12 (specs/WorkManager/Worker.tla, WorkerProps.tla)
 WPROPS = ["WorkerOneResultPerJob", "WorkerSuccessMeansFinished", "WorkerResultNamesCause",
@@ -108,6 +118,7 @@ SLICES = {
 # the property as an invariant (no model transition violates a clause, the dispatcher is never stuck).
 DESIGN_CFG = cfg(MaxBatch=2, Hards="{0,1}", Progs="{0,1}", MaxStale=1)
 FREE_RUNS = {"quick": 150, "thorough": 2000}          # free-running executions with real workers
+MANY_RUNS = {"quick": 40, "thorough": 600}            # many-batch executions (1..40 batches) under virtual time
 WALKS = {"quick": (0, 0), "thorough": (300, 24)}     # random walks per slice: (count, depth)
 
 ASSUMPTIONS = [
@@ -142,6 +153,8 @@ def label(act):
         s = "Wake(b%d,g%d)" % (act["b"], act["g"])
     elif op in ("Cancel", "HardFire"):
         s = "%s(b%d)" % (op, act["b"])
+    elif op == "IdleElapsed":
+        s = "IdleElapsed(b%d,g%d)" % (act["b"], act["g"])
     else:
         s = op
     return s + "=" + str(act.get("res"))
@@ -209,6 +222,10 @@ def convert_trace(events, cap=1500):
     amap, inst, batches, verd, ans, holder = {}, {}, [], [], [], {}
     steps = []
     free = any(e["ev"] == "Free" for e in events[:1])      # real workers, real handlers
+    # executions under virtual time (many-batch driver): every event carries its time, BatchOpt the
+    # durations of a batch's timers, Quiet marks quiescence, Got what a caller read from its channel
+    real, bopt, win, wstart, told, last_disp = [], {}, {}, {}, set(), [None]
+    OTHER_GOROUTINES = ("Answered", "Final", "Free", "Many", "BatchOpt", "Got", "Quiet")
     truth = set()                                           # (batch, request) whose handler said Finished
     exited = set()                                          # (addr, instance) that handed back a disconnect
     finals = {e["x"]: e for e in events if e["ev"] == "Final"}
@@ -232,7 +249,7 @@ def convert_trace(events, cap=1500):
 
     def disp_after(idx):
         for e in events[idx + 1:]:
-            if e["ev"] in ("Answered", "Final", "Free"):      # logged by other goroutines
+            if e["ev"] in OTHER_GOROUTINES:      # logged by other goroutines
                 continue
             if e["ev"] == "Wait":
                 return 0
@@ -257,7 +274,38 @@ def convert_trace(events, cap=1500):
             break
         if len(steps) >= cap:
             break
-        if ev in ("Wait", "Offer", "Free", "Final"):
+        if ev not in OTHER_GOROUTINES:
+            last_disp[0] = ev
+        if ev in ("Wait", "Offer", "Free", "Final", "Many"):
+            continue
+        if ev == "BatchOpt":
+            bopt[e["x"]] = (e["y"] * 1000, e["z"] * 1000)
+            continue
+        if ev == "Got":
+            while len(real) <= e["x"]:
+                real.append([])
+            real[e["x"]].append(e["y"])
+            continue
+        if ev == "Quiet":
+            # Everything has come to rest at (virtual) time e["t"].  Which timers have run out by now?
+            # (x = 1: the dispatcher is inside a callback of its configuration, e.g. OnMaxTries)
+            disp = 0 if last_disp[0] == "Wait" and e["x"] == 0 else 1
+            # what the callers hold: a result the dispatcher logged counts only if the caller has read one
+            rv = [list(verd[bi]) if bi < len(real) and real[bi] else [] for bi in range(len(batches))]
+            for bi, b in enumerate(batches):
+                pt, ht = bopt.get(bi, (0, 0))
+                # the hard deadline has passed (time.After channel ready), dispatcher in its main select
+                if (ht and disp == 0 and not b["hardx"] and not verd[bi] and b["hard"]
+                        and e["t"] >= b["t0"] + ht):
+                    b["hardx"] = True
+                    emit(None, op="HardFire", b=bi + 1)
+                    steps[-1]["obs"]["disp"] = disp
+                # the idle window the batch is in has fully elapsed
+                if pt and b["prog"] and e["t"] >= wstart[bi] + pt and (not rv[bi] or (bi, win[bi]) not in told):
+                    told.add((bi, win[bi]))
+                    emit(None, op="IdleElapsed", b=bi + 1, g=win[bi])
+                    steps[-1]["obs"]["disp"] = disp
+                    steps[-1]["obs"]["verd"] = rv
             continue
         if ev == "Answered":
             truth.add((e["x"] + 1, e["y"] + 1))
@@ -269,7 +317,8 @@ def convert_trace(events, cap=1500):
             z = e["z"]
             retr, nomax = z & 255, (1 if z & 256 else 0)
             b = dict(n=e["y"], first=njobs + 1, retr=retr, nomax=nomax, hard=1 if z & 512 else 0, prog=1 if z & 1024 else 0,
-                     cancel=False, hardx=False)
+                     cancel=False, hardx=False, t0=e.get("t", 0))
+            win[len(batches)], wstart[len(batches)] = 1, e.get("t", 0)
             njobs += b["n"]
             batches.append(b)
             verd.append([])
@@ -324,6 +373,10 @@ def convert_trace(events, cap=1500):
             if err == 2:
                 exited.add((a, i))
             res = RES_NAMES.get(z) or ("progress" if err == 0 else "requeue")
+            if res == "progress" and (yb - 1) in win:
+                # :643 the idle timer is re-armed: the next window starts now
+                win[yb - 1] += 1
+                wstart[yb - 1] = e.get("t", 0)
             emit(idx, op="Result", res=res, a=a, i=i, j=j, b=b, k=k, e=err)
         elif ev == "Wake":
             b = e["x"] + 1
@@ -521,7 +574,7 @@ def run(prop_id, tier, seed, replay=None):
     t0 = time.time()
     sc = core.scratch("wm")
     try:
-        binary = family.build_overlay_test(PKG, [DRIVER, DRIVER_W, DRIVER_F], os.path.join(sc, "query.test"))
+        binary = family.build_overlay_test(PKG, [DRIVER, DRIVER_W, DRIVER_F, DRIVER_M], os.path.join(sc, "query.test"))
         pf = os.path.join(sc, "paths.ndjson")
         extra = {}
         if replay:
@@ -578,6 +631,29 @@ def run(prop_id, tier, seed, replay=None):
                 # the repository's tests could not be recorded (they may be broken by the change under
                 # test): the replay verdicts stand on their own
                 extra["repo_tests_traced"] = {"error": str(e)[:500]}
+        if not replay:
+            try:
+                # 1..40 batches in flight at once, real idle / hard timers under virtual time (synctest)
+                mobs, mverdict, minfo = recorded_part(
+                    sc, binary, prop_id, tests="^TestVerifWorkManagerMany$", off=3 * TOFF, tag="many",
+                    env_extra={"VERIF_MANY_N": str(MANY_RUNS[tier]), "VERIF_SEED": str(seed)})
+                observed = observed + mobs
+                n_paths += len(mobs)
+                verdict = merge_verdicts(verdict, mverdict)
+                rej = minfo["rejected_by_TraceWorkManager"]
+                dr = (dr[0] + minfo["steps_judged"], dr[1] + len(rej),
+                      dr[2] + [{"trace": r["trace"], "step": r["accepted_steps"] + 1,
+                                "what": "many-batch execution (virtual time) is not a behaviour of "
+                                        "WorkManager.tla at " + str(r["next"])} for r in rej[:3]])
+                minfo["max_batches_in_one_execution"] = max(
+                    [sum(1 for st in t["steps"] if st["act"]["op"] == "Query") for t in mobs] or [0])
+                minfo["idle_windows_elapsed_judged"] = sum(
+                    1 for t in mobs for st in t["steps"] if st["act"]["op"] == "IdleElapsed")
+                extra["many_batches"] = minfo
+            except core.MachineryError as e:
+                extra["many_batches"] = {"error": str(e)[:500]}
+                print("many-batch executions could not be recorded (not a verdict): %s" % str(e)[:300],
+                      file=sys.stderr)
         if tier == "thorough" and not replay and CODE_VERSION.get("FixStaleWorker"):
             c = dict(DESIGN_CFG)
             c.update(CODE_VERSION)
